@@ -28,6 +28,8 @@ SPECIAL_DOCS = [
     "[^1]: note\n\n    more\n", "a[^1]\n\n[^1]: note\n", "```\ncode\n\n\n```\n", "~~~~ info extra\n~~~\n~~~~\n", "    indented\n\n    code\n",
     "# h\\\n", "Setext\n===\n\npara\n", "- [ ] task\n- [x] done\n", "[ ] not a task\n", "| a\\|b | `c\\|d` |\n|:--|--:|\n| 1. | x |\n",
     "1\\. not a list\n\ntext 1\\. mid\n\n# 1\\. head\n", "[x]: <http://a b> 'T'\n\n[y](http://q \"T \\\"q\\\"\")\n", "``a`b``\n", "<div>\nhtml\n</div>\n",
+    "- > - a\n  >\n  > - b\n", "- x\n\n  > - a\n  >\n  > - b\n", "1. > 1. a\n   >\n   > 2. b\n", "> - > - a\n>   >\n>   > - b\n",
+    "> [!NOTE]\n", "- > [!TIP]\n- b\n", "> [!WARNING]\n\nafter\n",
     "* * *\n\n---\n", "- a\n\n  b\n- c\n", "- ```\n  code\n  ```\n\n- ```\n  x\n  ```\n", "- > q\n\n- > r\n", "- - a\n\n- - b\n", "- * * *\n\n- z\n",
     "- | a |\n  |---|\n  | 1 |\n\n- x\n", "* * w\n", "> * * w\n", "[^1]: - a\n    - b\n\nx[^1]\n", "- [ ]  two spaces\n", "[a]: http://x 'T'\n\n[a] [b][a]\n", "> - a\n>\n> - b\n",
     "[a]: http://u 'The \\\"Markdown\\\" spec'\n\n[b]: http://v (paren \"q\" x)\n\n[c]: http://w \"dq \\\"e\\\" q\"\n\nSee [a], [b] and [c].\n",
